@@ -11,7 +11,7 @@ import (
 // Model form of a JSON value: nil, bool, json.Number, string, []any, map[string]any.
 
 var (
-	Names   = []string{"a", "b", "ab", "\u00e9", "a b", "", "a/b", "~", "0", "a,b"} // (several are concatenations of others with a separator)
+	Names   = []string{"a", "b", "ab", "\u00e9", "a b", "", "a/b", "~", "0", "a,b", "\x1f", "a\x00b"} // (several are concatenations of others with a separator; C0 controls incl. the last one, U+001F)
 	Strings = []string{"", "a", "b", "ab", "abc", "\u00e9", "e\u0301", "\u65e5\u672c", "\U0001F600", "a b", "0", "1", "true", "null", "a/b", "~"}
 	// Numbers exactly representable in float64, with short decimal spellings (some in two spellings).
 	Numbers = []string{"0", "1", "-1", "2", "3", "4", "5", "10", "0.5", "-0.5", "1.5", "2.5", "0.25", "0.125", "1.0", "1e0", "10e-1", "2.0",
